@@ -139,11 +139,22 @@ impl Completions {
         // Process the remaining completions events that are ready.
         // NOTE: we explitly enter here to ensure we get the latests completions
         // from the kernel, poll doesn't guarantee that.
-        if let Err(err) = shared.enter(1, libc::IORING_ENTER_GETEVENTS, Some(Duration::ZERO)) {
-            log::warn!("error getting last completions: {err}");
-        }
-        if let Err(err) = self.poll(shared, Some(Duration::ZERO)) {
-            log::warn!("error processing last completions: {err}");
+        loop {
+            let entered = shared.enter(1, libc::IORING_ENTER_GETEVENTS, Some(Duration::ZERO));
+            if let Err(err) = &entered {
+                log::warn!("error getting last completions: {err}");
+            }
+            if let Err(err) = self.poll(shared, Some(Duration::ZERO)) {
+                log::warn!("error processing last completions: {err}");
+            }
+            // If the completion queue overflowed not all completions fit in
+            // the queue, so process the ones that didn't as well. The kernel
+            // returns EBUSY if it couldn't flush all of them.
+            let flags = load_kernel_shared(shared.kernel_flags);
+            let failed = matches!(&entered, Err(err) if err.raw_os_error() != Some(libc::EBUSY));
+            if failed || flags & libc::IORING_SQ_CQ_OVERFLOW == 0 {
+                break;
+            }
         }
     }
 }
